@@ -28,4 +28,24 @@ QueueHead1 == QA(1)!HeadOnly
 QueueOrder1 == QA(1)!RecvOrder
 QueueClosed1 == QA(1)!ClosedForGood
 QueueInv == QA(1)!Exact /\ QA(1)!NoDupRecv
+
+\* Channel 1 implements the abstract broadcast channel ChanAbs (claimed for configurations with one channel and no
+\* queue: messages are numbered by one counter).
+AppendAllF(bs, v) == [j \in DOMAIN bs |-> [cid |-> bs[j].cid, items |-> Append(bs[j].items, v)]]
+CA(c) == INSTANCE ChanAbs WITH AppendAll <- AppendAllF, bufs <- obj.ch[c].bufs, closed <- obj.ch[c].closed, nsent <- cnt.item, ncons <- cnt.cons
+ChanRefines1 == CA(1)!Spec
+ChanHead1 == CA(1)!HeadOnly
+ChanBroadcast1 == CA(1)!Broadcast
+ChanOrder1 == CA(1)!OrderKept
+ChanClosed1 == CA(1)!ClosedForGood
+ChanInv == CA(1)!Exact /\ CA(1)!Distinct
+
+\* Supply 1 implements the abstract ledger ResAbs: `out` is what borrow blocks in progress and scheduled give-back
+\* helpers account for (OutOf).  Every step of USim is a Take / Give / Change / Forfeit of the ledger or leaves it alone;
+\* on configurations without interrupts no step is a Forfeit, without rchange the sum level + out is constant.
+RA(p) == INSTANCE ResAbs WITH level <- obj.pool[p].level, out <- OutOf(p)
+ResRefines1 == RA(1)!Spec
+ResNoForfeit1 == RA(1)!NoForfeit
+ResConserved1 == RA(1)!Conserved
+ResInv == RA(1)!NonNegative
 =============================================================================
